@@ -9,7 +9,7 @@ TIER=${2:-quick}
 export CARGO_NET_OFFLINE=true
 export CARGO_TARGET_DIR="$W/target"
 mkdir -p "$W/repo"
-rsync -a --delete --exclude target --exclude .git --exclude .verif-mc --exclude .verif-out /repo/ "$W/repo/"
+rsync -a --delete --exclude target --exclude .git --exclude .verif-mc --exclude .verif-out /repo/ "$W/repo/" && find "$W/repo/src" "$W/repo/tests" "$W/repo/Cargo.toml" -type f -exec touch {} +
 if ! (cd "$W/repo" && patch -p1 -s < "$PATCH"); then echo "EQUIV $(basename "$PATCH") patch-does-not-apply"; exit 3; fi
 out=$(cd "$W/repo" && cargo test --workspace --no-fail-fast --offline --lib --tests 2>&1); rc_suite=$?
 bad=""
